@@ -1,5 +1,5 @@
 // Package obuilder is the planbuilder of the C50 option-plumbing fixture:
-//   - LOAD DATA ignores ESCAPED BY '' (extra emptiness guard; C50-O1),
+//   - LOAD DATA ignores ESCAPED BY ” (extra emptiness guard; C50-O1),
 //   - LOAD DATA rejects a multi-character ENCLOSED BY that INTO OUTFILE accepts (C50-O4).
 package obuilder
 
